@@ -113,6 +113,13 @@ int strcmp(const char *a, const char *b)
     return nondet_int();
 }
 
+#else
+/* witness mode: keyword matching is irrelevant to memory safety/termination of tokenize; CBMC's strcmp model would
+ * need 10 unwindings per call */
+int strcmp(const char *a, const char *b) { (void)a; (void)b; return nondet_int(); }
+/* the array is never grown for the <= LEX_WIT_MAX-byte inputs of the witness search (first growth at 63 tokens);
+ * CBMC's realloc model (symbolic-size copy) exhausts memory here */
+void *realloc(void *p, size_t n) { (void)p; (void)n; __CPROVER_assume(0); return NULL; }
 #endif /* !VERIF_WITNESS */
 
 /* ---- contract of the unit's own function ---- */
